@@ -485,7 +485,10 @@ func (ch *channel) deriveAndSetBitrates() {
 	for name, trd := range ch.trDatas {
 		if trd.init.Moov.Trak.Mdia.Minf.Stbl.Stsd.GetBtrt() == nil {
 			// Estimate bitrate from the segments available
-			sdb := ch.segTimesGen.segDataBuffers[name]
+			sdb, ok := ch.segTimesGen.segDataBuffers[name]
+			if !ok || sdb.nrItems() == 0 {
+				continue // No segments received for this track yet
+			}
 			totDur := uint64(0)
 			totSize := uint64(0)
 			var timeScale uint32 = 0
@@ -518,11 +521,11 @@ func (ch *channel) deriveAndSetBitrates() {
 
 func (ch *channel) deriveAndSetFrameRates(log *slog.Logger) {
 	for name, trd := range ch.trDatas {
-		sdb := ch.segTimesGen.segDataBuffers[name]
+		sdb, ok := ch.segTimesGen.segDataBuffers[name]
 		if trd.contentType != "video" {
 			continue
 		}
-		if sdb.nrItems() == 0 {
+		if !ok || sdb.nrItems() == 0 {
 			log.Warn("Cannot derive frame rate since no segments for track", "trName", name)
 			continue
 		}
